@@ -57,7 +57,7 @@ def h_dill(sym, kind="promotion", W=2, T=3, E=8, max_t=4, brackets=1, max_fail=0
         sym.check(len(set(cfgs)) == len(cfgs), "C16.config-suggested-twice", str(cfgs))
 
 
-def h_searcher_state(sym, kind="random", N=6, seed=7, allow_duplicates=False, finite=True, small=False):
+def h_searcher_state(sym, kind="random", N=6, seed=7, allow_duplicates=False, finite=True, small=False, restrict=False):
     """searcher level: get_state / clone_from_state"""
     from syne_tune.config_space import choice, randint, uniform
     from syne_tune.optimizer.schedulers.searchers.random_grid_searcher import RandomSearcher, GridSearcher
@@ -66,8 +66,13 @@ def h_searcher_state(sym, kind="random", N=6, seed=7, allow_duplicates=False, fi
         cs = {"a": choice(["p", "q"]), "n": randint(1, 2)}
 
     def mk():
+        rc = {}
+        if restrict:
+            # random search restricted to a given list of configurations (5 of the 9); a fresh list per searcher, the searcher
+            # removes entries from the list it is given
+            rc = dict(restrict_configurations=[{"a": a, "n": n} for a, n in (("p", 1), ("q", 2), ("r", 3), ("p", 3), ("r", 1))])
         if kind == "random":
-            return make(RandomSearcher, cs, metric="m", random_seed=seed, allow_duplicates=allow_duplicates)
+            return make(RandomSearcher, cs, metric="m", random_seed=seed, allow_duplicates=allow_duplicates, **rc)
         return make(GridSearcher, cs, metric="m", random_seed=seed, allow_duplicates=allow_duplicates)
     orig, shadow = mk(), mk()
     k = sym.choice("snapshot_at", N + 1)
@@ -81,7 +86,11 @@ def h_searcher_state(sym, kind="random", N=6, seed=7, allow_duplicates=False, fi
             sym.goal("snapshot")
         c_o = orig.get_config(trial_id=str(i))
         other = clone if clone is not None else shadow
-        c_c = other.get_config(trial_id=str(i))
+        try:
+            c_c = other.get_config(trial_id=str(i))
+        except (AttributeError, TypeError, KeyError) as e:
+            c_c = None
+            sym.violation("C16.clone-raises", "get_config #%d on the %s raises %s: %s (snapshot at %d)" % (i, "clone" if clone is not None else "shadow", type(e).__name__, e, k))
         sym.check(c_o == c_c, "C16.clone-suggestion-differs", "get_config #%d: original %s, %s %s (snapshot at %d)" % (i, c_o, "clone" if clone is not None else "shadow", c_c, k))
         if c_o is not None and not allow_duplicates:
             sym.check(c_o not in seen, "C16.config-suggested-twice", "%s" % (c_o,))
@@ -124,6 +133,9 @@ def obligations(tier):
     obs.append(Ob("C16.b[get_state,random,seed=7,allow_duplicates]", "props.c16:h_searcher_state", dict(kind="random", N=N + 1, seed=7, allow_duplicates=True, small=True),
                   bounds=dict(get_config_calls=N + 1, space="2 x 2 finite", allow_duplicates=True), goals=("snapshot", "end"),
                   split=(("snapshot_at", tuple(range(N + 2))),), budget_s=900))
+    obs.append(Ob("C16.b[get_state,random,seed=7,restrict_configurations]", "props.c16:h_searcher_state", dict(kind="random", N=N, seed=7, restrict=True),
+                  bounds=dict(get_config_calls=N, space="5 listed configurations of a 3 x 3 space", snapshot_at="0..%d" % N), goals=("snapshot", "end"),
+                  split=(("snapshot_at", tuple(range(N + 1))),), budget_s=900))
     for kind in ("random", "grid"):
         for seed in (31415927, 7):
             obs.append(Ob("C16.b[get_state,%s,seed=%d]" % (kind, seed), "props.c16:h_searcher_state", dict(kind=kind, N=N, seed=seed),
